@@ -218,7 +218,7 @@ func c01(c *fw.Ctx) {
 	c.Assume("'fits' is decided by qrref capacities (ISO 18004 tables), not by the library; charset hints are only combined with text drawn from that charset's repertoire (x/text codec round trip)")
 	for v := 1; v <= 40; v++ {
 		v := v
-		for k := 0; k < c.Pick(2, 10); k++ {
+		for k := 0; k < c.Pick(2, 30); k++ {
 			c.Run(fmt.Sprintf("retained/%d/%d", v, k), func(r *fw.Rec) { c01Retained(r, v) })
 		}
 	}
@@ -270,7 +270,7 @@ func c01(c *fw.Ctx) {
 	}
 	c.Exhaustive("QR (version, level, mode) capacity boundaries: all 640, lengths capacity and capacity-1")
 	// (b) random classes
-	nrand := c.Pick(8000, 150000)
+	nrand := c.Pick(8000, 500000)
 	for i := 0; i < nrand; i++ {
 		i := i
 		c.Run(fmt.Sprintf("rand/%d", i), func(r *fw.Rec) {
